@@ -773,7 +773,42 @@ func runC10(c *Ctx) {
 			st, ok := in.(*ssa.Store)
 			return ok && pathOf(st.Addr) == "&in.readOnly" && pathOf(st.Val) == "const:true"
 		}, G("requested and not already read-only", True(`^readOnly$`)), G("not already read-only", False(`^in\.readOnly$`)))
+		// the flag is only ever raised here and lowered by the reset deferred by the frame that raised it: a nested
+		// non-static frame must not clear or overwrite an inherited flag
+		bad, nSet, nReset := "", 0, 0
+		allInstrs(fn, true, func(f *ssa.Function, in ssa.Instruction) {
+			st, ok := in.(*ssa.Store)
+			if !ok || !re(`^&(in|\*?free:in|\*in)\.readOnly$`).MatchString(pathOf(st.Addr)) {
+				return
+			}
+			switch v := pathOf(st.Val); {
+			case v == "const:true" && f == fn:
+				nSet++
+			case v == "const:false" && f != fn:
+				nReset++
+			default:
+				bad = describeInstr(in) + " at " + c.P.Pos(instrPos(in))
+			}
+		})
+		c.Check("W", fnName(fn)+"/read-only mode is only raised by the static frame and lowered by its own deferred reset", bad == "" && nSet == 1 && nReset == 1, fn.Pos(), nSet+nReset, "other write of the flag: "+bad+" — a CALL inside a STATICCALL would clear or replace the inherited flag")
+		for _, a := range fn.AnonFuncs {
+			if len(findInstrs(a, StoreTo(`readOnly$`))) == 0 {
+				continue
+			}
+			c.Guarded(fn, "register the reset of the read-only flag", func(in ssa.Instruction) bool {
+				d, ok := in.(*ssa.Defer)
+				if !ok {
+					return false
+				}
+				if mc, ok := d.Call.Value.(*ssa.MakeClosure); ok {
+					return mc.Fn == a
+				}
+				return d.Call.Value == ssa.Value(a)
+			}, G("this frame raised the flag", True(`^readOnly$`)), G("flag was not inherited", False(`^in\.readOnly$`)))
+		}
 	}
+	c.frameRules()
+	runC10Slices(c)
 	// ---- jumps / gas -------------------------------------------------------------------------------------------
 	for _, name := range []string{"opJump", "opJumpi"} {
 		if fn := c.Fn("kvm", "", name); fn != nil {
